@@ -4,7 +4,7 @@
    of hub.topicsStateForUser over every topic category, peer-to-peer topics, me/fnd, sys with
    its subscribers); see DESIGN.md section 5/C03. *)
 From Coq Require Import ZArith NArith List Bool.
-From Tinode Require Import Base.Util Pure.Acs Sys.Topic Sys.TopicTac Sys.TopicFrame Sys.TopicNum Sys.TopicOut Sys.TopicNumThm Sys.TopicPub Sys.TopicMarks Sys.TopicMeta Sys.TopicCoh Sys.TopicLife Sys.TopicLifeProofs.
+From Tinode Require Import Base.Util Pure.Acs Sys.Topic Sys.TopicTac Sys.TopicFrame Sys.TopicNum Sys.TopicOut Sys.TopicNumThm Sys.TopicPub Sys.TopicMarks Sys.TopicMeta Sys.TopicCoh Sys.TopicLife Sys.TopicLifeProofs Sys.TopicOboC04 Sys.TopicOffSetC03 Sys.TopicOffSetC03Proofs.
 Import ListNotations.
 Open Scope Z_scope.
 
@@ -428,4 +428,172 @@ Example c03s_ex_population :
   xaccepts sm x 1%N = true /\
   match nth_error (x_p2p x) 0 with Some p => p2p_accepts sm p 1%N | None => true end = false /\
   snd (xstep (fun _ _ => None) (fun r => r) sm x (EPubSys NoFault 1%N 7%N)) = [(1%N, Ctrl 202 [(P_seq, 1)]); (0%N, Push 1 1%N [2%N])].
+Proof. vm_compute. repeat split. Qed.
+
+(* ====================================================================================================== *)
+(* Strengthening s03c: "the author is currently subscribed with write permission in both the requested and the
+   granted mode ... for every history of subscription and permission changes" - (1) the permission change made
+   by a session that is NOT attached (hub.go replyOfflineTopicSetSub, modelled completely in
+   Sys/TopicOffSetC03.v: desc.private and sub.mode in one request); (2) the author kind "root on behalf of
+   another user" and the eviction of the sessions attached on behalf of a banned / removed user. *)
+
+(* (1) An acknowledged not-attached {set} carrying sub.mode (reply 200, or 304 = nothing to change) has stored
+   exactly the sanitised mode [off_want_c03] (parsed, the O bit as stored, masked with JRWPA|A on a peer-to-peer
+   topic) as the user's requested mode, and has left the granted mode alone - for EVERY desc.private carried by
+   the same request (q is arbitrary), every stored Private, every fault plan, group and peer-to-peer topics. *)
+Theorem c03o_offline_ack_stores_sanitised_mode : forall f p2p s pv sid u q c l, u <> 0%N -> or_mode q = c :: l ->
+  off_acked_c03 (offline_set_c03 f p2p s pv sid u q) = true ->
+  exists r0 mw, ad_sub_get s u false = Some r0 /\ off_want_c03 p2p (s_want r0) (c :: l) = inr mw /\
+    smodes (of_st (offline_set_c03 f p2p s pv sid u q)) u = Some (mw, s_given r0).
+Proof. exact off_ack_stores_want. Qed.
+
+(* ... hence the publish decision of the topic loaded afterwards follows it: in the cache built by
+   loadSubscribers the author is a writer iff W is in the acknowledged mode and in the granted mode *)
+Theorem c03o_offline_ack_decides_later_publish : forall f p2p s pv sid u q c l, u <> 0%N -> wf_store s -> or_mode q = c :: l ->
+  off_acked_c03 (offline_set_c03 f p2p s pv sid u q) = true ->
+  exists r0 mw, ad_sub_get s u false = Some r0 /\ off_want_c03 p2p (s_want r0) (c :: l) = inr mw /\
+    is_writer (pud_mode (get_pud (load (of_st (offline_set_c03 f p2p s pv sid u q))) u)) = is_writer mw && is_writer (s_given r0).
+Proof. exact off_then_load_decides. Qed.
+
+(* the modes stored by the request do not depend on its desc.private (no fault) *)
+Theorem c03o_offline_private_irrelevant_to_modes : forall p2p s pv sid u t c l p1 p2, u <> 0%N ->
+  forall v, smodes (of_st (offline_set_c03 NoFault p2p s pv sid u (mkOffReq t (c :: l) p1))) v =
+            smodes (of_st (offline_set_c03 NoFault p2p s pv sid u (mkOffReq t (c :: l) p2))) v.
+Proof. exact off_private_irrelevant. Qed.
+
+(* exactly one reply; a refused request (error reply) writes nothing; nobody else's modes change, ever *)
+Theorem c03o_offline_one_reply : forall f p2p s pv sid u q, exists fr, of_out (offline_set_c03 f p2p s pv sid u q) = [(sid, fr)].
+Proof. exact off_one_reply. Qed.
+Theorem c03o_offline_refused_no_effect : forall f p2p s pv sid u q, off_acked_c03 (offline_set_c03 f p2p s pv sid u q) = false ->
+  of_st (offline_set_c03 f p2p s pv sid u q) = s /\ of_priv (offline_set_c03 f p2p s pv sid u q) = pv.
+Proof. exact off_refused_no_effect. Qed.
+Theorem c03o_offline_others_untouched : forall f p2p s pv sid u q v, u <> 0%N -> v <> u ->
+  smodes (of_st (offline_set_c03 f p2p s pv sid u q)) v = smodes s v.
+Proof. exact off_others_untouched. Qed.
+
+(* the sanitised mode: the O bit of the stored requested mode never changes here; on a peer-to-peer topic the result
+   stays within JRWPA and keeps A; on a group topic it is the parsed mode *)
+Theorem c03o_offline_sanitised_mode_shape : forall p2p w mode mw, off_want_c03 p2p w mode = inr mw ->
+  is_owner mw = (if p2p then false else is_owner w) /\
+  (p2p = true -> N.land mw (N.lxor 255 ModeCP2P_c03) = 0%N /\ has mw mA = true) /\
+  (p2p = false -> mw = fst (unmarshal_text 0%N mode)).
+Proof. exact off_want_shape. Qed.
+
+(* in the wrapper model run by the correspondence check: a {set} from a session that is not attached IS that
+   function of the stored row, in every state of the topic *)
+Theorem c03o_set_from_detached_session : forall dr nr sm roots z f sid q, x_del (oz_x z) = None -> x_attached (oz_x z) sid = false ->
+  let x := oz_x z in
+  let u := sess_uid sm sid in
+  let r := offline_set_c03 f false (st (xb x)) (get_priv_c03 (oz_gpriv z) u) sid u q in
+  ozstep_c03 dr nr sm roots z (ZSet f sid q) =
+    Some (mkOZ (after_crash f (set_b (mkState (of_st r) (ca (xb x)) (of_n r)) x)) (aset u (of_priv r) (oz_gpriv z)) (oz_ppriv z),
+          of_out r).
+Proof. exact zset_not_attached. Qed.
+
+(* (2) evictUser(u): no session attached AS u remains, whoever owns the session (the test of Topic.remSession reads
+   perSessionData.uid); every other attachment is kept; the loop over t.sessions as written computes exactly that *)
+Theorem c03o_evict_detaches_everybody_attached_as : forall c u unsub skip,
+  none_attached_as_c03 (fst (evict_user c u unsub skip)) u = true.
+Proof. exact evict_none_attached. Qed.
+Theorem c03o_none_attached_meaning : forall c u,
+  none_attached_as_c03 c u = true <-> forall sid a b, In (sid, (a, b)) (c_sess c) -> a <> u.
+Proof. exact none_attached_spec. Qed.
+Theorem c03o_evict_keeps_others : forall c u unsub skip e, In e (c_sess c) -> fst (snd e) <> u ->
+  In e (c_sess (fst (evict_user c u unsub skip))).
+Proof. exact evict_keeps_others. Qed.
+Theorem c03o_evict_loop_as_written : forall l u skip unsub, u <> 0%N -> NoDup (map fst l) ->
+  fst (evict_sessions_c03 l u skip unsub) = filter (fun e => negb (N.eqb (fst (snd e)) u)) l.
+Proof. exact evict_sessions_is_filter. Qed.
+(* a session that was attached on behalf of the evicted user - a ROOT session with extra.obo included - is not
+   attached afterwards: its later {pub}, on behalf of anybody, is refused (c03_rejected_no_effect) *)
+Theorem c03o_evicted_session_not_attached : forall c u unsub skip sid b, NoDup (map fst (c_sess c)) ->
+  alookup sid (c_sess c) = Some (u, b) -> attached (fst (evict_user c u unsub skip)) sid = false.
+Proof. exact evicted_not_attached. Qed.
+
+(* the requests that evict: an accepted change of the target's granted mode to one without J (a ban, whatever other
+   bits - W - it keeps), an acknowledged {del sub}, an acknowledged {leave unsub} *)
+Theorem c03o_ban_detaches : forall f s c n sid u target mode h w g,
+  another_user_sub f s c n sid u target mode = (h, SubOk (Some (w, g))) -> is_joiner g = false ->
+  none_attached_as_c03 (h_ca h) target = true.
+Proof. exact ban_detaches. Qed.
+Theorem c03o_del_sub_detaches : forall f s c n sid u target code pt,
+  In (sid, Ctrl code []) (h_out (del_sub f s c n sid u target)) -> code = 200 \/ code = 304 ->
+  alookup target (c_users c) = Some pt ->
+  none_attached_as_c03 (h_ca (del_sub f s c n sid u target)) target = true.
+Proof. exact del_sub_detaches. Qed.
+Theorem c03o_leave_unsub_detaches : forall f s c n sid u,
+  In (sid, Ctrl 200 []) (h_out (leave_unsub f s c n sid u)) ->
+  none_attached_as_c03 (h_ca (leave_unsub f s c n sid u)) u = true.
+Proof. exact leave_unsub_detaches. Qed.
+
+(* the author kind "root on behalf of another user": the {pub} of a root session with extra.obo = u is the topic's
+   publish with u as the author under the session map in which the session stands for u - so every C03 theorem
+   above (c03x_accepted_iff, c03x_rejected_no_effect, ... hold for every session map) applies with the ACTING
+   user: acknowledged iff the session is attached and u's want and given both have W *)
+Theorem c03o_obo_publish_is_publish_as : forall dr nr sm roots x f sid u content noecho, is_root_c04 roots sid = true -> u <> 0%N ->
+  obo_step_c03 dr nr sm roots x (OboUser u) f (OPub sid content noecho) =
+    Some (xstep dr nr (sm_as_c04 sm sid u) x (EBase f (OPub sid content noecho))).
+Proof. exact obo_pub_is_publish_as. Qed.
+Theorem c03o_obo_accepted_iff : forall dr nr sm x sid u content noecho, inv_num (xb x) ->
+  ((exists n, first_reply (snd (xstep dr nr (sm_as_c04 sm sid u) x (EBase NoFault (OPub sid content noecho)))) sid = Some (Ctrl 202 [(P_seq, n)]))
+   <-> xaccepts (sm_as_c04 sm sid u) x sid = true).
+Proof. intros dr nr sm x sid u. exact (c03x_accepted_iff dr nr (sm_as_c04 sm sid u) x sid). Qed.
+Theorem c03o_obo_needs_root : forall dr nr sm roots x ob f sid content noecho, is_root_c04 roots sid = false -> has_obo_c04 ob = true ->
+  x_del x = None ->
+  obo_step_c03 dr nr sm roots x ob f (OPub sid content noecho) = Some (set_b (mkState (st (xb x)) (ca (xb x)) 0) x, [(sid, Ctrl 403 [])]).
+Proof. exact obo_needs_root. Qed.
+
+Print Assumptions c03o_offline_ack_stores_sanitised_mode.
+Print Assumptions c03o_offline_ack_decides_later_publish.
+Print Assumptions c03o_offline_private_irrelevant_to_modes.
+Print Assumptions c03o_offline_one_reply.
+Print Assumptions c03o_offline_refused_no_effect.
+Print Assumptions c03o_offline_others_untouched.
+Print Assumptions c03o_offline_sanitised_mode_shape.
+Print Assumptions c03o_set_from_detached_session.
+Print Assumptions c03o_evict_detaches_everybody_attached_as.
+Print Assumptions c03o_none_attached_meaning.
+Print Assumptions c03o_evict_keeps_others.
+Print Assumptions c03o_evict_loop_as_written.
+Print Assumptions c03o_evicted_session_not_attached.
+Print Assumptions c03o_ban_detaches.
+Print Assumptions c03o_del_sub_detaches.
+Print Assumptions c03o_leave_unsub_detaches.
+Print Assumptions c03o_obo_publish_is_publish_as.
+Print Assumptions c03o_obo_accepted_iff.
+Print Assumptions c03o_obo_needs_root.
+
+(* the two histories of the seeded regressions, in the model: (a) user 2, not attached, sends ONE {set} with
+   desc.private {k1: 5} and sub.mode "JRP": acknowledged, the stored want is JRP, Private is stored too; after the
+   topic loads he attaches and his publish is refused (403).  (b) the root session 3 of user 1 attaches on behalf of
+   user 2 and publishes for him (202); the owner bans user 2 with the granted mode RWP (no J, W kept): session 3 is
+   detached (evicted frame) and its next publish on behalf of user 2 is refused (409). *)
+Definition c03o_w_roots : list N := [3%N].
+Definition c03o_w_sm : sessmap := [(1%N, 1%N); (2%N, 2%N); (3%N, 1%N)].
+Example c03o_ex_offline_set_with_private :
+  let z0 := ozinit_c03 (xinit c03_w_store) in
+  match ozrun_c03 (fun _ _ => None) (fun r => r) c03o_w_sm c03o_w_roots z0
+          [ZSet NoFault 2%N (mkOffReq 0%N [74%N; 82%N; 80%N] (PrMap [(1%N, PeVal 5%N)]));
+           ZX (EBase NoFault (OSub 2%N [] false)); ZX (EBase NoFault (OPub 2%N 7%N false))] with
+  | Some (z, outs) =>
+    smodes (st (xb (oz_x z))) 2%N = Some (11%N, 47%N) /\ oz_gpriv z = [(2%N, PvMap [(1%N, 5%N)])] /\
+    outs = [[(2%N, CtrlAcs 200 0%N 11%N 47%N)]; [(2%N, Ctrl 200 [])]; [(2%N, Ctrl 403 [])]]
+  | None => False
+  end.
+Proof. vm_compute. repeat split. Qed.
+Example c03o_ex_root_on_behalf_of_banned :
+  let z0 := ozinit_c03 (xinit c03_w_store) in
+  match ozrun_c03 (fun _ _ => None) (fun r => r) c03o_w_sm c03o_w_roots z0
+          [ZX (EBase NoFault (OSub 1%N [] false)); ZObo (OboUser 2%N) NoFault (OSub 3%N [] false);
+           ZObo (OboUser 2%N) NoFault (OPub 3%N 7%N false);
+           ZX (EBase NoFault (OSetSub 1%N 2%N [82%N; 87%N; 80%N]));
+           ZObo (OboUser 2%N) NoFault (OPub 3%N 8%N false)] with
+  | Some (z, outs) =>
+    smodes (st (xb (oz_x z))) 2%N = Some (47%N, 14%N) /\
+    match ca (xb (oz_x z)) with Some c => none_attached_as_c03 c 2%N && negb (attached c 3%N) | None => false end = true /\
+    nth 2 outs [] = [(3%N, Ctrl 202 [(P_seq, 1)]); (1%N, Data 1 2%N 7%N); (3%N, Data 1 2%N 7%N); (0%N, Push 1 2%N [1%N; 2%N])] /\
+    nth 3 outs [] = [(3%N, Evicted false); (1%N, CtrlAcs 200 2%N 47%N 14%N)] /\
+    nth 4 outs [] = [(3%N, Ctrl 409 [])]
+  | None => False
+  end.
 Proof. vm_compute. repeat split. Qed.
